@@ -1263,6 +1263,12 @@ theorem Agrees.sorted_pairs {U : List Prov} {cache : Cache} {db : DB} {E : List 
   refine nodup_map_of_inj _ (nodup_of_nodup_map _ h.ast.ainv.nodup_id) (fun x hx y hy e => ?_)
   exact inj_of_nodup_map _ h.dbinv.apair ((h.agreeA x).mp hx) ((h.agreeA y).mp hy) e
 
+/-- **the loop of `reindexAdmins` visits every administrator exactly once, whatever their number**
+    (a multiple of the page size included): paging with `DefaultAdminMax` from the empty cursor until
+    the next cursor is empty yields the listing (`admin_paging_exact`) -/
+theorem AColl.reindexList_eq {A : AColl} (h : AInv A) : A.reindexList = A.sorted :=
+  (admin_paging_exact A h adminMax (A.sorted.length + 1) (Nat.lt_succ_self _)).1
+
 /-- `UpdateProvisioner` for the repaired code: a rename re-indexes the administrators from memory
     (`reindexAdmins`), so the only way to `reloadFailed` is a failed write followed by a failed
     reload -/
@@ -1320,6 +1326,7 @@ theorem updateProv_inv (U : List Prov) (hU : SumsOK U) (v : Variant) (hv : v.fix
         · -- renamed: the admin collection is rebuilt from the admins it holds
           simp only [hv, true_and] at hnr ⊢
           rw [if_pos hren] at hnr ⊢
+          rw [AColl.reindexList_eq h.ast.ainv] at hnr ⊢
           obtain ⟨A', E', hgo, hst, hAm⟩ := goA_spec P' hPinv s.cache.A.sorted {} []
             ⟨AInv.empty, CInv.empty, GRep.empty, by intro e he; cases he⟩ h.ast.ainv.nodup_id (by simp)
             h.sorted_pairs (by simp)
@@ -1663,7 +1670,7 @@ theorem step_frame (v : Variant) (f : Faults) (s : Auth) (op : AOp) (hop : isPol
         exact ⟨by rw [(this _).1], (this _).2⟩
       · simp only [List.contains_eq_mem, hb, decide_false, Bool.false_eq_true, if_false]
         split
-        · cases buildCache.goA P {} s.cache.A.sorted <;> exact ⟨rfl, rfl⟩
+        · cases buildCache.goA P {} s.cache.A.reindexList <;> exact ⟨rfl, rfl⟩
         split
         · have := afterFail_frame f
             { cache := { P := P, A := s.cache.A },
@@ -1991,7 +1998,7 @@ theorem reloadFailed_causes (U : List Prov) (hU : SumsOK U) (f : Faults) (s : Au
           simp only [List.contains_eq_mem, hb, decide_false, Bool.false_eq_true, if_false, Variant.fixed, true_and] at hrf
           by_cases hren : s.cache.provName p.id ≠ some p.name
           · rw [if_pos hren] at hrf
-            cases hgo : buildCache.goA P' {} s.cache.A.sorted <;> simp [hgo] at hrf
+            cases hgo : buildCache.goA P' {} s.cache.A.reindexList <;> simp [hgo] at hrf
           · rw [if_neg hren, if_neg hren] at hrf; cases hrf
   | removeProv id =>
     left
@@ -2360,7 +2367,7 @@ theorem auth_super_remains (U : List Prov) (hU : SumsOK U) (f : Faults) (s : Aut
           exact h1
         · simp only [List.contains_eq_mem, hb, decide_false, Bool.false_eq_true, if_false]
           split
-          · cases buildCache.goA P' {} s.cache.A.sorted <;> exact h1
+          · cases buildCache.goA P' {} s.cache.A.reindexList <;> exact h1
           split
           · rw [(afterFail_frame f
               { cache := { P := P', A := s.cache.A },
@@ -3255,7 +3262,7 @@ theorem step_used0 (v : Variant) (f : Faults) (s : Auth) (op : AOp) (hop : isPol
         rw [(this _).1]
       · simp only [List.contains_eq_mem, hb, decide_false, Bool.false_eq_true, if_false]
         split
-        · cases buildCache.goA P {} s.cache.A.sorted <;> rfl
+        · cases buildCache.goA P {} s.cache.A.reindexList <;> rfl
         split
         · have := afterFail_frame f
             { cache := { P := P, A := s.cache.A },
@@ -3605,7 +3612,7 @@ theorem step_provs_mem (v : Variant) (f : Faults) (s : Auth) (op : AOp) :
         rw [(this _).1]; exact fun h => .inl h
       · simp only [List.contains_eq_mem, hb, decide_false, Bool.false_eq_true, if_false]
         split
-        · cases buildCache.goA P {} s.cache.A.sorted <;> exact key
+        · cases buildCache.goA P {} s.cache.A.reindexList <;> exact key
         split
         · have := afterFail_frame f
             { cache := { P := P, A := s.cache.A },
@@ -4506,5 +4513,13 @@ theorem storeProv_duplicate_token_refused (v : Variant) (f : Faults) (s : Auth) 
     Auth.step v f s (.storeProv p) = ({ s with calls := 0 }, .badRequest) := by
   unfold Auth.step
   simp [hc, hn, ht]
+
+/-- **one admin request at a time** — every public write method of the authority takes the admin
+    lock before its first check and before anything it writes (`removeAdmin` is the helper that
+    runs under its callers' lock): check and write of one request are not interleaved with another
+    request's. This is the source-derived fact behind the sequential model of `Auth.step`. -/
+theorem lock_before_everything :
+    ∀ e ∈ writeOrder, e.1 ≠ "removeAdmin" → e.2.head? = some "adminMutex.Lock" ∧ (e.2.filter (· = "adminMutex.Lock")).length = 1 := by
+  decide
 
 end Verif.Admin
